@@ -178,17 +178,18 @@ pub fn update_read() {
 }
 
 /// C16-S2: chains of successive versions of one flattened array, any cache capacity.
-/// params: [k orders, chain length, commit after each version (0/1)]
+/// params: [k orders, chain length, 0 = commit at the end, 1 = commit after each version, 2 = commit the first version only, then unstage]
 pub fn array_chain() {
     let k = sym::param(0) as usize;
     let n = sym::param(1) as usize;
-    let commit_each = sym::param(2) != 0;
+    let commit_each = sym::param(2) == 1;
     let cap = sym::range(1, 3) as usize;
     sym::set_env("MELDA_ARRAYDESCRIPTORS_CACHE_CAP", cap);
     sym::set_env("MELDA_DATA_CACHE_CAP", cap);
     let a = Rep::new();
     let mut last = Map::new();
-    for _ in 0..n {
+    let mut first: Option<Map<String, Value>> = None;
+    for i in 0..n {
         let c = sym::choose(k + 1);
         let absent = c == k;
         let o = if absent { ORDERS[0] } else { ORDERS[c] };
@@ -203,11 +204,26 @@ pub fn array_chain() {
         a.m.update(d.clone()).expect("update");
         let r = a.m.read(None).expect("read");
         assert!(reads_back(&r, &d), "stored array version does not reconstruct to the submitted array");
-        if commit_each {
+        if commit_each || (sym::param(2) == 2 && i == 0) {
             a.m.commit(None).expect("commit");
             assert!(reads_back(&a.m.read(None).expect("read"), &d), "commit changed the reconstructed array");
         }
+        if i == 0 {
+            first = Some(d.clone());
+        }
         last = d;
+    }
+    if sym::param(2) == 2 {
+        // versions 2..n were staged on top of the committed first version: discarding them must show it again
+        if let Some(f) = &first {
+            let mut a = a;
+            a.m.unstage().expect("unstage");
+            assert!(reads_back(&a.m.read(None).expect("read after unstage"), f), "first (committed) array version does not reconstruct after unstage");
+            a.m.update(last.clone()).expect("update");
+            assert!(reads_back(&a.m.read(None).expect("read"), &last), "array version does not reconstruct when staged again");
+        }
+        sym::reach(1);
+        return;
     }
     a.m.commit(None).expect("commit");
     let re = a.reopen();
